@@ -81,6 +81,7 @@ func settingsModel(c *Ctx, report bool) *settingsModelT {
 	// settings root type: the struct type of the Server field guarded by the settings mutex: by role, the
 	// type returned by the function that the apply function returns.
 	var applyFd, normFd *ast.FuncDecl
+	var applyCands []*ast.FuncDecl
 	for _, f := range spk.Syntax {
 		for _, d := range f.Decls {
 			fd, ok := d.(*ast.FuncDecl)
@@ -105,11 +106,30 @@ func settingsModel(c *Ctx, report bool) *settingsModelT {
 				continue
 			}
 			if len(ptypes) == 2 && ptypes[0] == rt && strings.HasPrefix(ptypes[1], "map[string]") {
-				applyFd = fd
+				applyCands = append(applyCands, fd)
 			}
 			if len(ptypes) == 1 && ptypes[0] == rt {
 				normFd = fd
 			}
+		}
+	}
+	// several functions of that shape (one per section): the entry is the one no other candidate calls
+	calledByCand := map[*ast.FuncDecl]bool{}
+	for _, cand := range applyCands {
+		ast.Inspect(cand.Body, func(x ast.Node) bool {
+			if call, ok := x.(*ast.CallExpr); ok {
+				if o, ok := calleeOf(info, call).(*types.Func); ok {
+					if d := c.P.declOf[o]; d != nil && d != cand {
+						calledByCand[d] = true
+					}
+				}
+			}
+			return true
+		})
+	}
+	for _, cand := range applyCands {
+		if !calledByCand[cand] {
+			applyFd = cand
 		}
 	}
 	if applyFd == nil || normFd == nil {
